@@ -60,5 +60,13 @@ META["C20"] = {
     "note": "Trusted: Lean kernel; crypto/sha256, encoding/base64 and time.Format are modelled by independent Lean implementations and compared byte-for-byte, not verified; transcription validated by replay.",
 }
 
+META["C03"] = {
+    "category": "proof",
+    "design_ref": "DESIGN.md section 5 / C03",
+    "technique": "Lean 4: stripHiddenRecipients and clearSensitiveFields proved (structural / mutual induction over JSON, any depth) to leave no bto/bcc; every BatchDeliver payload of the outbox paths and of the automatic Accept/Reject proved to be a stripped activity by re-running the compositional lock-discipline proofs with a payload predicate; body monitor proved for the GET handler; trace replay + raw-JSON payload monitor on the real code",
+    "text": "For every activity, configuration and environment, each payload the transcribed PostOutbox / Send / inbox side effects hand to the transport satisfies 'no bto/bcc on the activity nor on a typed value embedded in object', and every body the GET handler writes satisfies the same at every depth of object nesting: proved. The proofs cover all addressing mixtures and wrapping/normalisation paths because they quantify over the input. On each run real payload bytes and bodies are re-parsed and searched for bto/bcc.",
+    "note": "Trusted: Lean kernel, transcription (replay-validated), the assumption that an element is 'a typed value' iff its type name is known to the vocabulary (validated by the C12 probes). 'Hidden recipients still receive the delivery' is checked under C02.",
+}
+
 _ALL = ["C%02d" % i for i in range(1, 21)]
 NOT_APPLICABLE = [{"property_id": p, "reason": PENDING} for p in _ALL if p not in META]
